@@ -232,12 +232,12 @@ def o2_sync(ctx, ops):
 
 
 def jobs(tier):
-    out = [Job("L1a-crc-byte-step", l1_step, {}, cost=5)]
+    out = [Job("L1a-crc-byte-step", l1_step, {}, cost=5, crosscheck=True)]
     for n in ((2, 3, 11, 29) if tier == "quick" else range(2, 30)):
-        out.append(Job("L1b-crc-chain-law", l1_chain, dict(n=n), cost=n))
+        out.append(Job("L1b-crc-chain-law", l1_chain, dict(n=n), cost=n, crosscheck=(n <= 3)))
     for n in ((0, 1, 17, 32) if tier == "quick" else range(0, 33)):
         for ci in range(3):
-            out.append(Job("L2-whitening", l2_whiten, dict(n=n, ci=ci), cost=1 + n // 8))
+            out.append(Job("L2-whitening", l2_whiten, dict(n=n, ci=ci), cost=1 + n // 8, crosscheck=(n <= 17)))
     # O1
     names = [("none", 0)] + [(k, n) for k in ("bytes", "str") for n in ((0, 1, 5, 13, 14, 16, 17, 18, 19) if tier == "quick" else range(0, 21))]
     for kind, nl in names:
